@@ -5,6 +5,7 @@ package core
 // C26: enumerated spaces (see zz_verif_C26_test.go for the differential driver).
 
 import (
+	"encoding/json"
 	"fmt"
 	"math/big"
 	"os"
@@ -97,6 +98,15 @@ func c26Classify(res []*refevm.Result) string {
 	}
 }
 
+// c26RefOnly applies one transaction to the pre-state on the reference side only.
+func c26RefOnly(f c26Fork, pre *c26Pre, tx *refevm.Tx) *refevm.Result {
+	blk := &refevm.Block{Env: f.env(c26BlockGas), World: pre.world.Copy()}
+	if pre.codeA != nil {
+		blk.World.SetCode(progx.AddrA, pre.codeA)
+	}
+	return blk.Apply(tx)
+}
+
 // c26GasGrid runs one single-transaction program at ample gas, takes the reference's pre-refund gas need N and
 // then runs gas limits N-1, N, N+1; every run is a compared case.
 func c26GasGrid(r *mc.R, st *c26Stats, f c26Fork, pre *c26Pre, desc map[string]any, mk func(gas uint64) *refevm.Tx) {
@@ -122,7 +132,11 @@ func c26GasGrid(r *mc.R, st *c26Stats, f c26Fork, pre *c26Pre, desc map[string]a
 		return out
 	}
 	amp := run(c26Ample, "ample")
-	if amp == nil || amp.Rejected != "" {
+	if amp == nil {
+		// replay mode skipped the case (or the comparison stopped early): take the boundary from a reference-only run
+		amp = c26RefOnly(f, pre, mk(c26Ample))
+	}
+	if amp.Rejected != "" {
 		return
 	}
 	n := amp.GasSpent
@@ -140,10 +154,28 @@ func TestVerif_C26(t *testing.T) {
 	defer debug.SetGCPercent(debug.SetGCPercent(400)) // many small short-lived allocations; the live heap is tiny
 	mc.Run(t, "C26", func(r *mc.R) {
 		st := &c26Stats{oc: map[string]int64{}}
+		r.Rule("each case = one block of 1-2 transactions applied by go-ethereum (TransactionToMessage+ApplyMessage+Finalise+MakeReceipt+IntermediateRoot) and by the " +
+			"reference model at one fork of {Cancun,Prague,Osaka}; spaces: units = all sequences of <=L units of the unit alphabet x gas{need-1,need,(need+1),ample}; " +
+			"twotx = ordered unit pairs as two transactions of one block; opgrid = every operand tuple over the value alphabet per opcode + PUSH/DUP/SWAP/JUMP programs x gas grid; " +
+			"envelope = tx type x recipient x data x access list x value x fee parameters x gas{intrinsic,floor,need +-1, ample} + single-fault cases; " +
+			"distinct = distinct observed behaviours (fork, status/rejection, gas used, output hash, #logs)")
+		r.Bound("forks", []string{"Cancun", "Prague", "Osaka"})
+		r.Bound("ample_gas", c26Ample)
 		r.Assume("oracle = internal/verif/refevm, a naive big-integer interpreter + transaction envelope written from the Yellow Paper and the EIP texts (EELS is not installed); no code shared with core/vm or core/state_transition.go")
 		r.Assume("sender recovery is bypassed (fixed-sender Signer); block context is built directly (no header / system calls / withdrawals / requests)")
 		r.Assume("pre-states contain no EIP-161-empty accounts; no precompile execution, no EIP-7702 delegations")
 		part := os.Getenv("VERIF_C26_PART") // debugging aid: run one part only
+		if r.Replaying() {
+			var d struct {
+				Part string `json:"part"`
+			}
+			if json.Unmarshal(r.ReplayDescriptor(), &d) == nil && d.Part != "" {
+				part = d.Part
+				if part == "special" {
+					part = "opgrid"
+				}
+			}
+		}
 		for _, p := range []struct {
 			name string
 			run  func(*mc.R, *c26Stats)
@@ -282,13 +314,18 @@ func c26Envelope(r *mc.R, st *c26Stats) {
 							}
 							probe := mkTx(sh.typ, fee, sh.rc.to, data, als[ai], value, c26Ample)
 							ig, fl := refevm.IntrinsicGas(probe), refevm.FloorGas(probe)
-							res := one(desc(c26Ample), c26BlockGas, probe)
-							if len(res) == 1 && res[0].Rejected != "" {
+							var ref *refevm.Result
+							if res := one(desc(c26Ample), c26BlockGas, probe); len(res) == 1 {
+								ref = res[0]
+							} else {
+								ref = c26RefOnly(f, pre, probe) // replay mode skipped the case
+							}
+							if ref.Rejected != "" {
 								continue // fee-parameter fault: the gas limit grid adds nothing
 							}
 							gases := []uint64{ig - 1, ig, ig + 1, fl - 1, fl, fl + 1}
-							if len(res) == 1 && res[0].Rejected == "" {
-								n := res[0].GasSpent
+							{
+								n := ref.GasSpent
 								gases = append(gases, n-1, n, n+1)
 								if di == 0 && ai == 0 && value == 0 {
 									r.Sample(desc(c26Ample))
